@@ -10,15 +10,9 @@ from .c18 import _resolve_range
 HMM = 'tracklib.algo.dynamics.HMM'
 
 EXPLANATION = (
-    "Static analysis of HMM.estimate / Qlog / Plog: in the forward recursion the accumulated cost and the "
-    "predecessor state are read at the same (epoch-1, state) pair, the transition is evaluated at the epoch of "
-    "the predecessor, the emission at the current epoch with the current observation; the sign with which the "
-    "three log-likelihood terms enter agrees with the direction of the selection (strict-or-weak minimum, final "
-    "argmin); best value and back-pointer are co-updated; all epochs/states are filled; the backward pass writes "
-    "state and cost of epoch k from (k, idk) before following the back-pointer; the final selection covers every "
-    "state of the last epoch; Qlog and Plog apply the same transformation with the same floor constant.")
+    'Static analysis by interpretation of the source (nothing imported or executed by CPython): the decoder is walked by tlint.orders in plain and log mode; the decoded sequence must consist of candidate states of each epoch and attain the maximum joint likelihood found by enumeration, the cost recorded at the last epoch must be the optimal cost, and the model functions must only be asked for states / observations of the right epoch.')
 ASSUMPTIONS = ["the optimum of the recurrence is the optimum over sequences (textbook induction, not re-proved)"]
-TECHNIQUE = "symbolic index pairing on loop bodies (F3), polarity/sibling agreement (F5), co-update path rule (F6)"
+TECHNIQUE = "abstract interpretation of HMM.estimate / Qlog / Plog by the checker's AST interpreter on ~450 small models (every weak ordering of the four sequence costs of a 2x2 model, every sequence of three-epoch models with 1..3 states per epoch the unique optimum in turn, zero / one / tiny likelihoods, reuse of decoder and track), against enumeration of all state sequences (bounded case domain)"
 
 
 def vr(v):
